@@ -76,7 +76,7 @@ func f16Uncovered() string {
 
 func TestKvcStandinC06F16(t *testing.T) {
 	if u := f16Uncovered(); u != "" {
-		fmt.Printf("KVC-STANDIN C06F16 FAIL registered type %s is not covered by this stand-in\n", u)
+		fmt.Printf("KVC-STANDIN C06F16 UNCOVERED registered type %s is not covered by this stand-in\n", u)
 		t.FailNow()
 	}
 	cases := 0
@@ -150,7 +150,7 @@ func codecCheck(f float32, prev *float32, havePrev *bool) string {
 
 func TestKvcStandinC07F16(t *testing.T) {
 	if u := f16Uncovered(); u != "" {
-		fmt.Printf("KVC-STANDIN C07F16 FAIL registered type %s is not covered by this stand-in\n", u)
+		fmt.Printf("KVC-STANDIN C07F16 UNCOVERED registered type %s is not covered by this stand-in\n", u)
 		t.FailNow()
 	}
 	workers := runtime.NumCPU()
